@@ -1,11 +1,16 @@
 package props
 
 import (
+	"encoding/json"
 	"fmt"
 	"math"
+	"os"
+	"os/exec"
+	"path/filepath"
 	"runtime"
 	"strings"
 	"sync"
+	"sync/atomic"
 	"testing"
 
 	"pgregory.net/rapid"
@@ -116,14 +121,26 @@ func (a *actor) exec(op WOp) (res string) {
 }
 
 // drawOp draws an API call; dirty=true emphasises what dirties shared state.
-func drawOp(rt *rapid.T, dirty bool) WOp {
-	vi := gen.Version(rt)
-	if dirty && rapid.IntRange(0, 1).Draw(rt, "v2bias") == 0 {
-		vi = 0
+var opKinds = []string{"parse", "parse", "parse", "set", "get", "vector", "vector", "scores", "rating", "nomen", "shared-scores", "shared-vector"}
+
+func drawOp(rt *rapid.T, dirty bool) WOp { return drawOpFocus(rt, dirty, "", -1) }
+
+// drawOpFocus draws a call; a non-empty kind / non-negative version pins them
+// (focused workloads: every goroutine hammers the same function).
+func drawOpFocus(rt *rapid.T, dirty bool, kind string, ver int) WOp {
+	vi := ver
+	if vi < 0 {
+		vi = gen.Version(rt)
+		if dirty && rapid.IntRange(0, 1).Draw(rt, "v2bias") == 0 {
+			vi = 0
+		}
 	}
 	v := spec.Versions[vi]
-	kinds := []string{"parse", "parse", "parse", "set", "get", "vector", "vector", "scores", "rating", "nomen", "shared-scores", "shared-vector"}
-	op := WOp{Kind: kinds[rapid.IntRange(0, len(kinds)-1).Draw(rt, "kind")], Ver: vi}
+	kinds := opKinds
+	op := WOp{Kind: kind, Ver: vi}
+	if kind == "" {
+		op.Kind = kinds[rapid.IntRange(0, len(kinds)-1).Draw(rt, "kind")]
+	}
 	switch op.Kind {
 	case "parse":
 		switch rapid.IntRange(0, 5).Draw(rt, "parsesrc") {
@@ -361,11 +378,31 @@ func runWorkload(w Workload) error {
 func drawWorkload(rt *rapid.T, procs int) Workload {
 	ng := rapid.IntRange(2, 24).Draw(rt, "goroutines")
 	w := Workload{Procs: procs, Rounds: rapid.IntRange(1, 6).Draw(rt, "rounds")}
+	// half of the workloads are focused: all goroutines call the same function of the
+	// same package with different arguments, many times (contention on one code path)
+	focus, fver, maxOps := "", -1, 40
+	if rapid.Bool().Draw(rt, "focused") {
+		focus = opKinds[rapid.IntRange(0, len(opKinds)-1).Draw(rt, "focus")]
+		fver = gen.Version(rt)
+		if focus == "rating" && fver == 0 {
+			fver = rapid.IntRange(1, 3).Draw(rt, "ratingver")
+		}
+		if focus == "nomen" {
+			fver = 3
+		}
+		maxOps = 120
+		w.Rounds = rapid.IntRange(4, 24).Draw(rt, "frounds")
+	}
 	for g := 0; g < ng; g++ {
-		n := rapid.IntRange(1, 40).Draw(rt, "nops")
+		n := rapid.IntRange(1, maxOps).Draw(rt, "nops")
 		var ops []WOp
 		for i := 0; i < n; i++ {
-			ops = append(ops, drawOp(rt, true))
+			if focus != "" && (focus == "vector" || focus == "scores" || focus == "nomen" || focus == "get") && i%4 == 0 {
+				// keep the receiver changing so that results differ between calls
+				ops = append(ops, drawOpFocus(rt, true, "set", fver))
+				continue
+			}
+			ops = append(ops, drawOpFocus(rt, true, focus, fver))
 		}
 		w.G = append(w.G, ops)
 	}
@@ -392,6 +429,262 @@ func (w Workload) contention() (v2parsers, vectorers, ops int) {
 		}
 	}
 	return
+}
+
+
+// ---- (f) cold start: the very first calls of a fresh process, made concurrently ------------
+
+// runWorkloadConcurrentFirst executes the workload concurrently BEFORE any sequential call has
+// been made in this process, then computes the sequential results and compares. Only meaningful in
+// a fresh process (TestC14Cold): it exposes lazily initialised package state that is published
+// before it is complete.
+func runWorkloadConcurrentFirst(w Workload) error {
+	procs := w.Procs
+	if procs < 1 {
+		procs = 1
+	}
+	runtime.GOMAXPROCS(procs)
+	got := make([][]string, len(w.G))
+	var wg sync.WaitGroup
+	start := make(chan struct{})
+	for g := range w.G {
+		wg.Add(1)
+		go func(g int) {
+			defer wg.Done()
+			a := &actor{}
+			<-start
+			a.reset()
+			for _, op := range w.G[g] {
+				got[g] = append(got[g], a.exec(op))
+			}
+		}(g)
+	}
+	close(start)
+	wg.Wait()
+	want := w.expected(nil)
+	for g := range w.G {
+		for i := range w.G[g] {
+			if got[g][i] != want[g][i] {
+				op := w.G[g][i]
+				return fmt.Errorf("cold start: goroutine %d call %d %s(v%s %q) made concurrently as one of the first calls of the process returned %q, the same call made afterwards returns %q", g, i, op.Kind, spec.Versions[op.Ver%4].Name, string(op.S), got[g][i], want[g][i])
+			}
+		}
+	}
+	return nil
+}
+
+// TestC14Cold is the child side of the cold-start check; it does nothing unless
+// VERIF_COLD_FILE names a workload file.
+func TestC14Cold(t *testing.T) {
+	path := os.Getenv("VERIF_COLD_FILE")
+	if path == "" {
+		t.Skip("child side of the C14 cold-start check")
+	}
+	b, err := os.ReadFile(path)
+	if err != nil {
+		t.Fatalf("HARNESS-ERROR %v", err)
+	}
+	var w Workload
+	if err := json.Unmarshal(b, &w); err != nil {
+		t.Fatalf("HARNESS-ERROR %v", err)
+	}
+	if err := runWorkloadConcurrentFirst(w); err != nil {
+		t.Fatalf("COLD-VIOLATION %v", err)
+	}
+}
+
+var coldSeq int
+
+// checkCold runs the workload in fresh child processes (this very test binary).
+func checkCold(w Workload) error {
+	dir := filepath.Join(env.Out, ".work-cold")
+	os.MkdirAll(dir, 0o755)
+	coldSeq++
+	path := filepath.Join(dir, fmt.Sprintf("cold-%d-%d-%d.json", os.Getpid(), env.Shard, coldSeq))
+	b, _ := json.Marshal(w)
+	if err := os.WriteFile(path, b, 0o644); err != nil {
+		return nil
+	}
+	defer os.Remove(path)
+	reps := w.Rounds
+	if reps < 1 {
+		reps = 1
+	}
+	for i := 0; i < reps; i++ {
+		cmd := exec.Command(os.Args[0], "-test.run", "^TestC14Cold$", "-test.count", "1", "-test.timeout", "120s")
+		// the race runtime sleeps 1 s at exit by default; every goroutine of the child has been joined by then
+		cmd.Env = append(os.Environ(), "VERIF_COLD_FILE="+path, "VERIF_REPLAY=", "GORACE=atexit_sleep_ms=20")
+		out, err := cmd.CombinedOutput()
+		if err != nil {
+			txt := string(out)
+			if strings.Contains(txt, "HARNESS-ERROR") {
+				continue
+			}
+			if len(txt) > 1500 {
+				txt = txt[:1500]
+			}
+			return fmt.Errorf("fresh process %d of %d running %d goroutines concurrently from its first call failed (%v):\n%s", i+1, reps, len(w.G), err, txt)
+		}
+	}
+	return nil
+}
+
+// ---- (e) hot loops: one pure function hammered by many goroutines ----------
+
+// HotCase: every goroutine calls the same function of one package in a tight loop over a few
+// generated arguments and compares each result with the one computed sequentially beforehand.
+// Millions of calls per case: this is what exposes a lost update in a non-atomic cache or memo.
+type HotCase struct {
+	Kind  string     `json:"kind"` // rating parse vector scores get
+	Ver   int        `json:"ver"`
+	Strs  []gen.BStr `json:"strings,omitempty"` // parse: vectors; vector/scores/get: vectors to build the shared objects from
+	Xs    []uint64   `json:"x_bits,omitempty"`  // rating
+	Abv   string     `json:"abv,omitempty"`     // get
+	G     int        `json:"goroutines"`
+	Iters int        `json:"iterations"`
+	Procs int        `json:"gomaxprocs"`
+}
+
+func runHot(c HotCase) error {
+	if c.Ver < 0 || c.Ver > 3 || c.G < 1 {
+		return nil
+	}
+	p := adapt.Pkgs[c.Ver]
+	type exp struct {
+		o    adapt.Obj
+		err  error
+		s    string
+		f    []float64
+		none bool
+	}
+	var calls []func() exp
+	switch c.Kind {
+	case "rating":
+		if p.Rating == nil {
+			return nil
+		}
+		for _, b := range c.Xs {
+			x := math.Float64frombits(b)
+			calls = append(calls, func() exp { s, err := p.Rating(x); return exp{s: s, err: err} })
+		}
+	case "parse":
+		for _, bs := range c.Strs {
+			str := string(bs)
+			calls = append(calls, func() exp { o, err := p.Parse(str); return exp{o: o, err: err, none: o == nil} })
+		}
+	case "vector", "scores", "get":
+		for _, bs := range c.Strs {
+			o, err := p.Parse(string(bs))
+			if err != nil || o == nil {
+				continue
+			}
+			switch c.Kind {
+			case "vector":
+				calls = append(calls, func() exp { return exp{s: o.Vector()} })
+			case "scores":
+				calls = append(calls, func() exp { return exp{f: o.Scores()} })
+			case "get":
+				abv := c.Abv
+				calls = append(calls, func() exp { s, err := o.Get(abv); return exp{s: s, err: err} })
+			}
+		}
+	}
+	if len(calls) == 0 {
+		return nil
+	}
+	same := func(a, b exp) bool {
+		if a.s != b.s || a.none != b.none || (a.err == nil) != (b.err == nil) || len(a.f) != len(b.f) {
+			return false
+		}
+		if a.err != nil && a.err != b.err && a.err.Error() != b.err.Error() {
+			return false
+		}
+		if a.o != nil && (b.o == nil || !a.o.Eq(b.o)) {
+			return false
+		}
+		for i := range a.f {
+			if math.Float64bits(a.f[i]) != math.Float64bits(b.f[i]) {
+				return false
+			}
+		}
+		return true
+	}
+	want := make([]exp, len(calls))
+	for i, f := range calls {
+		want[i] = f()
+	}
+	procs := c.Procs
+	if procs < 1 {
+		procs = 1
+	}
+	old := runtime.GOMAXPROCS(procs)
+	defer runtime.GOMAXPROCS(old)
+	var wg sync.WaitGroup
+	start := make(chan struct{})
+	errs := make([]error, c.G)
+	var stop int32
+	for g := 0; g < c.G; g++ {
+		wg.Add(1)
+		go func(g int) {
+			defer wg.Done()
+			defer func() {
+				if r := recover(); r != nil {
+					errs[g] = fmt.Errorf("goroutine %d panicked: %v", g, r)
+				}
+			}()
+			<-start
+			for i := 0; i < c.Iters && atomic.LoadInt32(&stop) == 0; i++ {
+				k := (i + g) % len(calls)
+				if got := calls[k](); !same(want[k], got) {
+					errs[g] = fmt.Errorf("%s (v%s), argument %d, called concurrently by %d goroutines (GOMAXPROCS=%d): got (%q, %v, %v), the sequential result is (%q, %v, %v)", c.Kind, p.V.Name, k, c.G, procs, got.s, got.err, got.f, want[k].s, want[k].err, want[k].f)
+					atomic.StoreInt32(&stop, 1)
+					return
+				}
+			}
+		}(g)
+	}
+	close(start)
+	wg.Wait()
+	for _, e := range errs {
+		if e != nil {
+			return e
+		}
+	}
+	return nil
+}
+
+func drawHot(rt *rapid.T, procs int, itersScale int) HotCase {
+	kinds := []string{"rating", "rating", "parse", "parse", "vector", "scores", "get"}
+	c := HotCase{Kind: kinds[rapid.IntRange(0, len(kinds)-1).Draw(rt, "kind")], Ver: gen.Version(rt), Procs: procs, G: rapid.IntRange(2, 16).Draw(rt, "goroutines")}
+	n := rapid.IntRange(2, 6).Draw(rt, "nargs")
+	switch c.Kind {
+	case "rating":
+		if c.Ver == 0 {
+			c.Ver = rapid.IntRange(1, 3).Draw(rt, "ratingver")
+		}
+		for i := 0; i < n; i++ {
+			c.Xs = append(c.Xs, math.Float64bits(float64(rapid.IntRange(-3, 103).Draw(rt, "k"))/10))
+		}
+		c.Iters = 150000 * itersScale
+	case "parse":
+		for i := 0; i < n; i++ {
+			if rapid.IntRange(0, 3).Draw(rt, "bad") == 0 {
+				s, _ := gen.Mutate(rt, gen.ValidVector(rt, c.Ver))
+				c.Strs = append(c.Strs, gen.BStr(s))
+			} else {
+				c.Strs = append(c.Strs, gen.BStr(gen.ValidVector(rt, c.Ver).S))
+			}
+		}
+		c.Iters = 25000 * itersScale
+	default:
+		for i := 0; i < n; i++ {
+			c.Strs = append(c.Strs, gen.BStr(gen.ValidVector(rt, c.Ver).S))
+		}
+		v := spec.Versions[c.Ver]
+		c.Abv = v.Metrics[rapid.IntRange(0, len(v.Metrics)-1).Draw(rt, "abv")].Abv
+		c.Iters = 25000 * itersScale
+	}
+	return c
 }
 
 func TestC14(t *testing.T) {
@@ -426,7 +719,7 @@ func TestC14(t *testing.T) {
 		}
 		return c
 	}, checkHistoryIndependence)
-	Rapid(h, "aliasing", n/3, func(rt *rapid.T) AliasCase {
+	Rapid(h, "aliasing", env.Scale(300, 3000), func(rt *rapid.T) AliasCase {
 		var c AliasCase
 		for i, k := 0, rapid.IntRange(1, 6).Draw(rt, "nobj"); i < k; i++ {
 			c.Objs = append(c.Objs, gen.ValidVector(rt, gen.Version(rt)))
@@ -442,7 +735,7 @@ func TestC14(t *testing.T) {
 		return c
 	}, checkAliasing)
 	// (d) each workload runs in a subtest so that a race report is attributed to it
-	nw := env.Scale(150, 1500)
+	nw := env.Scale(80, 1000)
 	if env.Shards > 1 {
 		nw = env.Scale(150, 800)
 	}
@@ -495,5 +788,82 @@ func TestC14(t *testing.T) {
 			}
 			return w
 		}, check)
+	}
+	// (e) hot loops
+	nh := env.Scale(16, 200)
+	if env.Shards > 1 {
+		nh = env.Scale(25, 150)
+	}
+	for _, procs := range []int{2, 16} {
+		procs := procs
+		if h.replaying() && procs != 2 {
+			continue
+		}
+		check := func(c HotCase) error {
+			var err error
+			seq++
+			ok := h.t.Run(fmt.Sprintf("hot%d", seq), func(st *testing.T) { err = runHot(c) })
+			if err != nil {
+				return err
+			}
+			if !ok {
+				return fmt.Errorf("the race detector reported a data race in hot loop %s (v%s, GOMAXPROCS=%d, %d goroutines)", c.Kind, spec.Versions[c.Ver%4].Name, c.Procs, c.G)
+			}
+			return nil
+		}
+		Rapid(h, "hot-loop", nh, func(rt *rapid.T) HotCase {
+			c := drawHot(rt, procs, 1)
+			h.R.Case(fmt.Sprintf("hot loop GOMAXPROCS=%d %s v%s", procs, c.Kind, spec.Versions[c.Ver].Name), fmt.Sprintf("HOT%v", c))
+			h.R.Count("hot-loop calls executed concurrently", int64(c.G*c.Iters))
+			if h.R.WantSample("hot-" + c.Kind) {
+				h.R.Sample("hot-"+c.Kind, c)
+			}
+			return c
+		}, check)
+	}
+	// (f) cold starts: every (function, version) combination gets its own fresh processes
+	type combo struct {
+		kind string
+		ver  int
+	}
+	var combos []combo
+	for _, k := range []string{"parse", "vector", "scores", "get", "set"} {
+		for v := 0; v < 4; v++ {
+			combos = append(combos, combo{k, v})
+		}
+	}
+	combos = append(combos, combo{"rating", 1}, combo{"rating", 2}, combo{"rating", 3}, combo{"nomen", 3})
+	nc := env.Scale(1, 6)
+	if env.Shards > 1 {
+		nc = env.Scale(1, 2)
+	}
+	for _, cb := range combos {
+		cb := cb
+		Rapid(h, "cold-start", nc, func(rt *rapid.T) Workload {
+			w := Workload{Procs: []int{4, 16}[rapid.IntRange(0, 1).Draw(rt, "procs")], Rounds: env.Scale(2, 3)}
+			ng := rapid.IntRange(16, 48).Draw(rt, "goroutines")
+			for g := 0; g < ng; g++ {
+				var ops []WOp
+				// the first calls of every goroutine reach the focused function; a few follow-ups
+				if cb.kind == "scores" || cb.kind == "vector" || cb.kind == "nomen" || cb.kind == "get" {
+					ops = append(ops, WOp{Kind: "parse", Ver: cb.ver, S: gen.BStr(gen.ValidVector(rt, cb.ver).S)})
+				}
+				ops = append(ops, drawOpFocus(rt, false, cb.kind, cb.ver))
+				for i, k := 0, rapid.IntRange(0, 2).Draw(rt, "more"); i < k; i++ {
+					ops = append(ops, drawOpFocus(rt, false, "", cb.ver))
+				}
+				w.G = append(w.G, ops)
+			}
+			h.R.Case(fmt.Sprintf("cold start focus=%s v%s", cb.kind, spec.Versions[cb.ver].Name), fmt.Sprintf("COLD%v", w))
+			h.R.Count("fresh child processes started", int64(w.Rounds))
+			if h.R.WantSample("cold-start") {
+				small := w
+				if len(small.G) > 2 {
+					small.G = small.G[:2]
+				}
+				h.R.Sample("cold-start", map[string]any{"goroutines": len(w.G), "children": w.Rounds, "first_two_goroutines": small.G})
+			}
+			return w
+		}, checkCold)
 	}
 }
